@@ -20,11 +20,13 @@ import (
 //   atomicOnly(cell): the cell is touched only through sync/atomic.
 
 type guardSet struct {
-	name  string
-	mu    *value
-	cells map[*value]string
-	maps  map[*smap]string
-	mode  int // 0 lock-guarded, 1 frozen, 2 atomic-only
+	sections int             // critical sections entered on mu since the guard was declared
+	readNow  map[string]bool // labels read in the current critical section
+	name     string
+	mu       *value
+	cells    map[*value]string
+	maps     map[*smap]string
+	mode     int // 0 lock-guarded, 1 frozen, 2 atomic-only
 }
 
 type disciplineEvent struct {
@@ -160,6 +162,8 @@ func (i *interpreter) onStore(fr *frame, addr *value) {
 			i.storedLabels[lbl] = true
 			if w, _ := i.heldMode(g.mu); !w {
 				i.discipline(lbl, fmt.Sprintf("C11: store to %s of %s without holding its mutex in write mode", lbl, g.name), fr)
+			} else if g.sections >= 2 && !g.readNow[lbl] {
+				i.discipline(lbl, fmt.Sprintf("C11: %s of %s is overwritten in a re-acquired critical section without being re-read first (check-then-act split across two critical sections)", lbl, g.name), fr)
 			}
 		case 1:
 			i.discipline(lbl, fmt.Sprintf("C11: %s writes to shared state (%s) that existed before the call", g.name, lbl), fr)
@@ -176,6 +180,9 @@ func (i *interpreter) onLoad(fr *frame, addr *value) {
 			continue
 		}
 		i.accessCount++
+		if g.readNow != nil {
+			g.readNow[lbl] = true
+		}
 		switch g.mode {
 		case 0:
 			if w, r := i.heldMode(g.mu); !w && !r {
@@ -211,8 +218,13 @@ func (i *interpreter) onMapAccess(fr *frame, m *smap, write bool) {
 				i.storedLabels[lbl+"{}"] = true
 				if !w {
 					i.discipline(lbl, fmt.Sprintf("C11: update of map %s of %s without holding its mutex in write mode", lbl, g.name), fr)
+				} else if g.sections >= 2 && !g.readNow[lbl+"{}"] {
+					i.discipline(lbl, fmt.Sprintf("C11: map %s of %s is updated in a re-acquired critical section without being looked up again first (check-then-act split across two critical sections)", lbl, g.name), fr)
 				}
-			} else if !w && !r {
+			} else if g.readNow != nil {
+				g.readNow[lbl+"{}"] = true
+			}
+			if !write && !w && !r {
 				if _, seen := i.unlockedLoads[lbl+"{}"]; !seen {
 					i.unlockedLoads[lbl+"{}"] = fr.fn.String()
 				}
@@ -307,4 +319,14 @@ func (i *interpreter) installGuardHooks() {
 	i.mapWriteHook = func(fr *frame, instr *ssa.MapUpdate, m *smap) { i.onMapAccess(fr, m, true) }
 	i.mapAccessHook = func(fr *frame, m *smap, write bool) { i.onMapAccess(fr, m, write) }
 	i.atomicHook = func(fr *frame, p *value, write bool) { i.onAtomic(fr, p, write) }
+}
+
+// onAcquire starts a new critical section on every guard whose mutex is p.
+func (i *interpreter) onAcquire(p *value) {
+	for _, g := range i.guards {
+		if g.mu == p {
+			g.sections++
+			g.readNow = map[string]bool{}
+		}
+	}
 }
